@@ -159,12 +159,28 @@ func fixInterfaceKey(dec *Decoder, key *interface{}) bool {
 		*key = string(k)
 		return true
 	}
-	if t := reflect.TypeOf(*key); !t.Comparable() {
+	if t := reflect.TypeOf(*key); !t.Comparable() || !hashable(*key) {
 		if dec.Error == nil {
 			dec.Error = DecodeError("hprose/io: " + t.String() + " can not be a map key")
 		}
 		return false
 	}
+	return true
+}
+
+// hashable reports whether v can be used as a map key. A struct or array type is comparable
+// even when it has interface members, but hashing a value whose member holds a slice or a
+// map panics at run time.
+func hashable(v interface{}) (ok bool) {
+	switch reflect.TypeOf(v).Kind() {
+	case reflect.Struct, reflect.Array, reflect.Interface:
+	default:
+		return true
+	}
+	defer func() {
+		ok = recover() == nil
+	}()
+	_ = map[interface{}]struct{}{v: {}}
 	return true
 }
 
